@@ -33,7 +33,7 @@ type IdxFile struct {
 	NoCoor *uint64 // nil: trailing count absent
 	// tabix header
 	Format, ColSeq, ColBeg, ColEnd, Meta, Skip int32
-	Names                                    []string
+	Names                                      []string
 	// CSI header
 	MinShift, Depth int32
 	Aux             []byte
@@ -114,7 +114,9 @@ func (f *IdxFile) EncodeCSI() []byte {
 	w32(&b, uint32(len(f.Aux)))
 	b.Write(f.Aux)
 	w32(&b, uint32(len(f.Refs)))
-	pseudo := uint32(((1<<uint((f.Depth+1)*3))-1)/7) + 1
+	// 64-bit arithmetic: at depth 10 the power is 2^33 (an untyped 1 would
+	// take the type uint32 here and wrap, as the library's own expression does)
+	pseudo := uint32((int64(1)<<uint((f.Depth+1)*3)-1)/7 + 1)
 	for _, r := range f.Refs {
 		n := len(r.Bins)
 		if r.Stats != nil {
